@@ -7,7 +7,10 @@ use boa_macros::{Finalize, Trace};
 
 use crate::{
     JsString,
-    object::shape::{Shape, WeakShape, slot::Slot},
+    object::shape::{
+        Shape, WeakShape,
+        slot::{Slot, SlotAttributes},
+    },
 };
 
 #[cfg(test)]
@@ -20,6 +23,9 @@ pub(crate) const PIC_CAPACITY: usize = 4;
 pub(crate) struct CacheEntry {
     /// A weak reference is kept to the shape to avoid the shape preventing deallocation.
     pub(crate) shape: WeakShape,
+    /// For a slot located in the prototype: the shape the prototype had when the entry was
+    /// created. The entry is only valid while the prototype still has that shape.
+    pub(crate) prototype_shape: Option<WeakShape>,
     #[unsafe_ignore_trace]
     pub(crate) slot: Slot,
 }
@@ -71,12 +77,22 @@ impl InlineCache {
             return;
         }
 
+        let prototype_shape = if slot.attributes.contains(SlotAttributes::PROTOTYPE) {
+            let Some(prototype) = shape.prototype() else {
+                return;
+            };
+            Some(WeakShape::from(prototype.borrow().shape()))
+        } else {
+            None
+        };
+
         let mut entries = self.entries.borrow_mut();
 
         // Add a new entry if there's space.
         if entries
             .try_push(CacheEntry {
                 shape: shape.into(),
+                prototype_shape,
                 slot,
             })
             .is_err()
@@ -107,6 +123,18 @@ impl InlineCache {
         while i < entries.len() {
             if let Some(upgraded) = entries[i].shape.upgrade() {
                 if upgraded.to_addr_usize() == shape_addr {
+                    // A slot located in the prototype is stale once the prototype changed shape.
+                    if let Some(prototype_shape) = &entries[i].prototype_shape {
+                        let valid = upgraded.prototype().is_some_and(|prototype| {
+                            prototype_shape.upgrade().is_some_and(|cached| {
+                                cached.to_addr_usize() == prototype.borrow().shape().to_addr_usize()
+                            })
+                        });
+                        if !valid {
+                            entries.swap_remove(i);
+                            break;
+                        }
+                    }
                     result = Some((upgraded, entries[i].slot));
                     break;
                 }
